@@ -79,7 +79,7 @@ BOUND = {
 REQUIRED_CLASSES = [
     'sense_clockwise', 'sense_anticlockwise', 'ratio_subharmonic', 'ratio_one', 'ratio_harmonic',
     'slit_spans_tdc', 'slit_negative_begin', 'opening_before_pulse', 'opening_straddles_pulse_time',
-    'phase_multi_turn', 'unit_rad', 'unit_kHz', 'unit_per_min', 'dtype_int64',
+    'phase_multi_turn', 'unit_rad', 'unit_kHz', 'unit_per_min', 'dtype_int64', 'ratio_mixed_dtypes_accepted', 'ratio_mixed_dtypes_rejected',
     'direct_ok', 'twin_from_same_variables_ok', 'replaced_frequency_ok', 'fdc_npulses_1_ok', 'fdc_npulses_ge2_run',
     'ratio_rejected_ValueError', 'ratio_near_integer_accepted',
     'overlap_plain_rejected', 'begin_gt_end_rejected', 'overlap_tdc_case_run',
@@ -116,6 +116,12 @@ RATIO_BASES = [(1, 4), (1, 2), (1, 1), (2, 1), (8, 1)]
 DELTA_ACCEPT = [1e-12, -1e-11, 1e-9, -1e-9]
 DELTA_REJECT = [1e-7, -1e-7, 1e-6, -1e-5, 1e-4]
 RATIO_PLAIN_REJECT = [(3, 2), (2, 3), (5, 2), (3, 4), (2, 5), (7, 2)]
+# (chopper Hz, pulse Hz, verdict): whole and fractional numbers on either side
+MIXED_DTYPE_RATIOS = [
+    (14, 14.0, 'accept'), (14, 7.0, 'accept'), (14, 3.5, 'accept'), (14, 28.0, 'accept'), (14, 56.0, 'accept'), (25, 12.5, 'accept'), (7, 17.5, 'reject'),
+    (14, 14.4, 'reject'), (14, 14.9, 'reject'), (28, 14.7, 'reject'), (7, 14.5, 'reject'), (14, 13.5, 'reject'), (3, 2.0, 'reject'), (14, 9.0, 'reject'),
+    (14.0, 14, 'accept'), (3.5, 14, 'accept'), (42.0, 14, 'accept'), (14.5, 14, 'reject'), (7.25, 14, 'reject'), (14.0, 4, 'reject'), (21.0, 14, 'reject'),
+]
 
 # overlap family (degrees); expect = ValueError at construction
 OVERLAPS = {
@@ -181,6 +187,14 @@ def cases(tier):
                 for pulse in (14.0, 10.0):
                     out.append({'kind': 'ratio', 'base': list(base), 'delta': 0.0, 'expect': 'reject', 'sense': sense,
                                 'funit': funit, 'punit': punit, 'pulse': pulse})
+    # chopper and pulse frequency held in different dtypes (a set point typed as an integer next to a measured float, and
+    # the reverse): the same numbers, so the same verdict and the same openings
+    for fdt, pdt in (('int64', 'float64'), ('int32', 'float64'), ('float64', 'int64'), ('float64', 'int32'), ('int64', 'int32')):  # float32 frequencies: times are then computed in single precision, which the 1e-12 bound of this check does not cover
+        for f, pz, expect in MIXED_DTYPE_RATIOS:
+            if (fdt.startswith('int') and f != int(f)) or (pdt.startswith('int') and pz != int(pz)):
+                continue
+            for sense in SENSES:
+                out.append({'kind': 'ratio_dtype', 'freq': f, 'pulse': pz, 'expect': expect, 'sense': sense, 'freq_dtype': fdt, 'pulse_dtype': pdt})
     for fam in OVERLAPS:
         for aunit, dtype in (('deg', 'float64'), ('rad', 'float64'), ('deg', 'int64')):
             for order in ('listed', 'reversed'):
@@ -207,16 +221,17 @@ def _freq_value(hz: float, unit: str) -> float:
     return {'Hz': hz, 'kHz': hz / 1000.0, '1/min': hz * 60.0}[unit]
 
 
-def build(slits_deg, *, beam, phase, amode, freq_value, funit, dtype='float64'):
+def build(slits_deg, *, beam, phase, amode, freq_value, funit, dtype='float64', freq_dtype=None):
     su, bu, pu = {'deg': ('deg',) * 3, 'rad': ('rad',) * 3, 'mixed': ('rad', 'deg', 'rad'),
                   'intbeam': ('deg', 'deg', 'rad'), 'intphase': ('deg', 'rad', 'deg')}[amode]
-    fv = int(freq_value) if dtype == 'int64' else float(freq_value)
+    freq_dtype = freq_dtype or dtype
+    fv = int(freq_value) if freq_dtype.startswith('int') else float(freq_value)
     # 'intbeam' / 'intphase': one integer-typed angle in degrees next to a float angle in radians
     bdt = 'int64' if amode == 'intbeam' else dtype
     pdt = 'int64' if amode == 'intphase' else dtype
     return DiskChopper(
         axle_position=sc.vector([3.0, 0.0, 4.0], unit='m'),
-        frequency=sc.scalar(fv, unit=funit, dtype=dtype),
+        frequency=sc.scalar(fv, unit=funit, dtype=freq_dtype),
         beam_position=_angles([beam], bu, bdt, False),
         phase=_angles([phase], pu, pdt, False),
         slit_begin=_angles([b for b, _ in slits_deg], su, dtype, True),
@@ -343,16 +358,17 @@ def _disk(slits_deg, beam, phase, freq_value, funit):
     )
 
 
-def check_config(rec, case, slits_deg, *, beam, phase, amode, freq_value, funit, pulse_value, punit, dtype, n_rep, npulses_list, first=False):
+def check_config(rec, case, slits_deg, *, beam, phase, amode, freq_value, funit, pulse_value, punit, dtype, n_rep, npulses_list, first=False, freq_dtype=None, pulse_dtype=None):
     """One real DiskChopper: the direct API and every expansion over pulses."""
     sub0 = {'beam_deg': beam, 'phase_deg': phase}
     try:
-        ch = build(slits_deg, beam=beam, phase=phase, amode=amode, freq_value=freq_value, funit=funit, dtype=dtype)
+        ch = build(slits_deg, beam=beam, phase=phase, amode=amode, freq_value=freq_value, funit=funit, dtype=dtype, freq_dtype=freq_dtype)
     except ValueError as e:
         rec.viol('DiskChopper.__init__', 'valid_slits_rejected', f'non-overlapping slits {slits_deg} deg rejected: {str(e)[:80]}', **sub0)
         return False
-    pv = int(pulse_value) if dtype == 'int64' else float(pulse_value)
-    pf = sc.scalar(pv, unit=punit, dtype=dtype)
+    pulse_dtype = pulse_dtype or dtype
+    pv = int(pulse_value) if pulse_dtype.startswith('int') else float(pulse_value)
+    pf = sc.scalar(pv, unit=punit, dtype=pulse_dtype)
     disk = _disk(slits_deg, beam, phase, ch.frequency.value.item() if hasattr(ch.frequency.value, 'item') else ch.frequency.value, funit)
     t_pulse = 1 / (Fr(pv) * UNIT_HZ[punit])
     rec.states += 1
@@ -539,6 +555,40 @@ def run_ratio(case, rec):
     rec.nontrivial += 1
 
 
+def run_ratio_dtype(case, rec):
+    f, pz = case['sense'] * case['freq'], case['pulse']
+    fdt, pdt = case['freq_dtype'], case['pulse_dtype']
+    slits = SLITSETS['two_at_tdc']
+    rec.cls('ratio_mixed_dtypes')
+    if case['expect'] == 'accept':
+        quot = abs(f) / pz
+        n_rep = round(max(quot, 1))
+        if check_config(rec, case, slits, beam=37, phase=15, amode='deg', freq_value=f, funit='Hz', pulse_value=pz, punit='Hz', dtype='float64',
+                        n_rep=n_rep, npulses_list=[1, 2], freq_dtype=fdt, pulse_dtype=pdt):
+            rec.cls('ratio_mixed_dtypes_accepted')
+        return
+    ch = build(slits, beam=37, phase=15, amode='deg', freq_value=f, funit='Hz', freq_dtype=fdt)
+    pf = sc.scalar(int(pz) if pdt.startswith('int') else float(pz), unit='Hz', dtype=pdt)
+    calls = {
+        'DiskChopper.time_offset_open': lambda: ch.time_offset_open(pulse_frequency=pf),
+        'DiskChopper.time_offset_close': lambda: ch.time_offset_close(pulse_frequency=pf),
+        'DiskChopper.open_duration': lambda: ch.open_duration(pulse_frequency=pf),
+        'Chopper.from_disk_chopper': lambda: Chopper.from_disk_chopper(ch, pf, 2),
+    }
+    for site, call in calls.items():
+        rec.transitions += 1
+        rec.evals += 1
+        rec.validated += 1
+        try:
+            res = call()
+        except ValueError:
+            rec.cls('ratio_mixed_dtypes_rejected')
+        else:
+            rec.observe(repr(res)[:200])
+            rec.viol(site, 'out_of_phase_ratio_accepted', f'chopper {f} Hz ({fdt}) with pulse {pz} Hz ({pdt}): the ratio is neither an integer nor an inverse integer but no ValueError was raised', ratio=f / pz)
+    rec.nontrivial += 1
+
+
 def run_overlap(case, rec):
     fam = case['family']
     slits = list(OVERLAPS[fam])
@@ -597,6 +647,8 @@ def run_case(case, rec):
         run_open(case, rec)
     elif kind == 'ratio':
         run_ratio(case, rec)
+    elif kind == 'ratio_dtype':
+        run_ratio_dtype(case, rec)
     elif kind == 'overlap':
         run_overlap(case, rec)
     else:
